@@ -45,10 +45,16 @@ func makeAvailableMemory(cache *MemCache, requiredMem, maxMem, minMem uint64) er
 }
 
 func (hm *HashMapA) makeAvailableMemory(cache *MemCache, requiredMem uint64) error {
+	if verifCacheOverride(&hm.HashMap, cache, requiredMem) {
+		return nil
+	}
 	return makeAvailableMemory(cache, requiredMem, maxPrePlotMem, minPrePlotMem)
 }
 
 func (hm *HashMapB) makeAvailableMemory(cache *MemCache, requiredMem uint64) error {
+	if verifCacheOverride(&hm.HashMap, cache, requiredMem) {
+		return nil
+	}
 	return makeAvailableMemory(cache, requiredMem, maxPlotMem, minPlotMem)
 }
 
@@ -101,9 +107,11 @@ func (mdb *MassDBV1) executePlot(result chan error) {
 	}
 	logging.CPrint(logging.INFO, "remove hashMapA",
 		logging.LogFormat{"bit_length": mdb.bl, "pub_key": hex.EncodeToString(mdb.pubKey.SerializeCompressed())})
+	verifPoint(mdb, "before.removeA")
 	mdb.HashMapA.Close()
 	os.Remove(mdb.filePathA)
 	mdb.HashMapA = nil
+	verifPoint(mdb, "after.removeA")
 	logging.CPrint(logging.INFO, "plot finished",
 		logging.LogFormat{"bit_length": mdb.bl, "pub_key": hex.EncodeToString(mdb.pubKey.SerializeCompressed())})
 }
@@ -134,6 +142,7 @@ func (mdb *MassDBV1) prePlotWork(cache *MemCache) error {
 		}
 		endPoint := startPoint + calcWindowSize() // slide windows defined by [start, end)
 		logging.CPrint(logging.DEBUG, "assign hashMapA calculation work", logging.LogFormat{"start_point": startPoint, "end_point": endPoint})
+		verifPoint(mdb, "A.window.start")
 		for x := pocutil.PoCValue(0); x < hmA.volume; x++ {
 			// calc and write the cache
 			y := pocutil.P(x, bl, pkHash)
@@ -168,17 +177,23 @@ func (mdb *MassDBV1) prePlotWork(cache *MemCache) error {
 			logging.CPrint(logging.ERROR, "fail on writing cache to file", logging.LogFormat{"err": err, "n": n})
 			return err
 		}
+		verifPoint(mdb, "A.data.written")
 		hmA.data.Sync() // write pre-plot data first
+		verifPoint(mdb, "A.data.synced")
 
 		hmA.checkpoint = startPoint + 1
 		hmA.UpdateCheckpoint()
+		verifPoint(mdb, "A.ckpt.written")
 		hmA.data.Sync() // then write new checkpoint
+		verifPoint(mdb, "A.ckpt.synced")
 		startPoint = endPoint
 	}
 
 	hmA.checkpoint = hmA.volume
 	hmA.UpdateCheckpoint()
+	verifPoint(mdb, "A.final.written")
 	hmA.data.Sync()
+	verifPoint(mdb, "A.final.synced")
 	return nil
 }
 
@@ -189,6 +204,7 @@ func (mdb *MassDBV1) plotWork(cache *MemCache) error {
 	var pkHash = hmA.pkHash
 	var recordSize = pocutil.RecordSize(bl)
 	var bs = make([]byte, recordSize*2)
+	var minMapABufMem = verifMapABuf(mdb, minMapABufMem)
 
 	var logCheckpointInterval = hmB.volume / (50 * 2)
 	var checkpoint = hmB.ReadCheckpoint()
@@ -216,6 +232,7 @@ func (mdb *MassDBV1) plotWork(cache *MemCache) error {
 		endPoint := startPoint + calcWindowSize() // slide windows defined by [start, end)
 		doubleStartPoint, doubleEndPoint := startPoint<<1, endPoint<<1
 		logging.CPrint(logging.DEBUG, "assign hashMapB calculation work", logging.LogFormat{"double_start_point": doubleStartPoint, "double_end_point": doubleEndPoint})
+		verifPoint(mdb, "B.window.start")
 
 		if _, err := hmA.data.Seek(int64(hmA.offset), 0); err != nil {
 			return err
@@ -258,16 +275,22 @@ func (mdb *MassDBV1) plotWork(cache *MemCache) error {
 			logging.CPrint(logging.ERROR, "fail on writing cache to file", logging.LogFormat{"err": err, "n": n})
 			return err
 		}
+		verifPoint(mdb, "B.data.written")
 		hmB.data.Sync() // write plot data first
+		verifPoint(mdb, "B.data.synced")
 
 		hmB.checkpoint = startPoint + 1
 		hmB.UpdateCheckpoint()
+		verifPoint(mdb, "B.ckpt.written")
 		hmB.data.Sync() // then update checkpoint
+		verifPoint(mdb, "B.ckpt.synced")
 		startPoint = endPoint
 	}
 
 	hmB.checkpoint = half
 	hmB.UpdateCheckpoint()
+	verifPoint(mdb, "B.final.written")
 	hmB.data.Sync()
+	verifPoint(mdb, "B.final.synced")
 	return nil
 }
